@@ -22,6 +22,7 @@ const compilerPath = modPath + "/pkg/compiler"
 
 func runC15(c *Ctx) {
 	c15Extra(c)
+	c15Epoch(c)
 	// The JIT's higher tiers are the optimiser: "behaves exactly like a fresh baseline compilation" needs the optimiser's
 	// fact discipline. The corresponding C03 rule sets are evaluated here under C15-R9 (same constructs).
 	c.ruleAlias = map[string]string{"C03-R7": "C15-R9", "C03-R8": "C15-R9", "C03-R9": "C15-R9"}
@@ -379,6 +380,104 @@ func c15Extra(c *Ctx) {
 	c.Sites["C15-R10#IsValid-true-stores"] = nValid
 	c.Sites["C15-R10#append-copy-sites-examined"] = nUse
 	c.ob("C15-R10", jitPkg+"#cached-code-immutable-and-not-revived", token.NoPos, nValid > 0, "no store of IsValid=true found: the specialisation typestate is not where the rule expects it")
+}
+
+// c15Epoch: R11 - code compiled before an invalidation is not published after it.
+func c15Epoch(c *Ctx) {
+	jitPkg := "pkg/jit"
+	c.rule("C15-R11", "GEN: every function of pkg/jit that compiles (calls compileWithTier / CompileWithTypeInfo, outside the cache lock) and then publishes the result (store into JITCompiler.units, into a cached unit's Bytecode, or AddSpecialization) publishes only on the equal edge of a comparison between JITCompiler.epoch and the value it read before compiling; every function that removes units (delete / re-make of JITCompiler.units) increments the epoch. Without it a compilation that was overtaken by InvalidateCache + a compilation of the new definition caches the old definition's code afterwards")
+	isCompile := func(x ssa.Instruction) bool {
+		call, ok := x.(*ssa.Call)
+		if !ok {
+			return false
+		}
+		n := callName(call)
+		return strings.HasSuffix(n, ".JITCompiler.compileWithTier") || strings.HasSuffix(n, ".TypeSpecializedCompiler.CompileWithTypeInfo")
+	}
+	isEpochLoad := func(v ssa.Value) bool { return loadedFromField(stripConv(v), "JITCompiler", "epoch") }
+	nPub, nInv := 0, 0
+	for _, fn := range c.srcFuncs(jitPkg) {
+		var compiles []ssa.Instruction
+		eachInstr(fn, func(_ *ssa.BasicBlock, _ int, ins ssa.Instruction) {
+			if isCompile(ins) {
+				compiles = append(compiles, ins)
+			}
+		})
+		k := 0
+		eachInstr(fn, func(_ *ssa.BasicBlock, _ int, ins ssa.Instruction) {
+			pub := ""
+			switch x := ins.(type) {
+			case *ssa.MapUpdate:
+				if loadedFromField(x.Map, "JITCompiler", "units") {
+					pub = "units[name] = unit"
+				}
+			case *ssa.Store:
+				if isStoreToField(x, "CompilationUnit", "Bytecode") && !isFreshAlloc(x.Addr) {
+					pub = "cached.Bytecode = code"
+				}
+			case *ssa.Call:
+				if strings.HasSuffix(callName(x), ".SpecializationCache.AddSpecialization") {
+					pub = "AddSpecialization"
+				}
+			}
+			if pub == "" || len(compiles) == 0 {
+				return
+			}
+			nPub++
+			k++
+			bad := false
+			var path []*ssa.BasicBlock
+			for _, comp := range compiles {
+				q := &pathQuery{fn: fn, target: func(x ssa.Instruction) bool { return x == ins }, cutEdge: func(b *ssa.BasicBlock, si int) bool {
+					iff := ifOf(b)
+					if iff == nil {
+						return false
+					}
+					for _, f := range eqFacts(iff.Cond, si == 0) {
+						if (isEpochLoad(f.x) && !isEpochLoad(f.y)) || (isEpochLoad(f.y) && !isEpochLoad(f.x)) {
+							return true
+						}
+					}
+					return false
+				}}
+				if hit, p := q.after(comp); hit != nil {
+					bad, path = true, p
+				}
+			}
+			c.ob("C15-R11", fnKey(fn)+"#publishes-only-in-the-epoch-it-compiled-in:"+pub+"-"+itoa(k), ins.Pos(), !bad, "the result of a compilation is cached without checking that no invalidation happened since the compilation started: an older, slower compilation of the route's previous definition overwrites the unit compiled from the new one and stale code is served from then on", c.blockPath(path)...)
+		})
+		// invalidators bump the epoch
+		removes := false
+		eachInstr(fn, func(_ *ssa.BasicBlock, _ int, ins ssa.Instruction) {
+			switch x := ins.(type) {
+			case *ssa.Call:
+				if callName(x) == "builtin.delete" && loadedFromField(x.Call.Args[0], "JITCompiler", "units") {
+					removes = true
+				}
+			case *ssa.Store:
+				if isStoreToField(x, "JITCompiler", "units") && fn.Name() != "NewJITCompiler" && fn.Name() != "NewJITCompilerWithConfig" {
+					removes = true
+				}
+			}
+		})
+		if removes {
+			nInv++
+			bumps := false
+			eachInstr(fn, func(_ *ssa.BasicBlock, _ int, ins ssa.Instruction) {
+				if st, ok := ins.(*ssa.Store); ok && isStoreToField(st, "JITCompiler", "epoch") {
+					if bo, ok := st.Val.(*ssa.BinOp); ok && bo.Op == token.ADD {
+						bumps = true
+					}
+				}
+			})
+			c.ob("C15-R11", fnKey(fn)+"#invalidation-bumps-epoch", fn.Pos(), bumps, "units are removed from the cache without incrementing the epoch: compilations in flight cannot tell that their result is out of date")
+		}
+	}
+	c.Sites["C15-R11#publications-after-compile"] = nPub
+	c.Sites["C15-R11#invalidators"] = nInv
+	if nPub < 3 || nInv < 2 {
+		c.undecided("C15-R11: %d publications / %d invalidators found, expected >= 3 / >= 2", nPub, nInv)
+	}
 }
 
 // derivesFromOnlySlicing: v is a value satisfying pred, or a slice expression / conversion of one.
